@@ -29,9 +29,9 @@ Print Assumptions C09_session_parameters_fixed.
 Example C09_ex_foreign :
   let good := ex_b 1 2 0 true in
   can_accept ex_start good = true
-  /\ can_accept ex_start (mkMsg 8 9 1 None 2 true true 0 12 true) = false      (* other session tag *)
-  /\ can_accept ex_start (mkMsg 7 10 1 None 2 true true 0 12 true) = false     (* other protocol id *)
-  /\ can_accept ex_start (mkMsg 7 9 5 None 2 true true 0 12 true) = false      (* unknown sender *)
-  /\ can_accept ex_start (mkMsg 7 9 1 (Some 2) 2 true false 0 12 true) = false (* addressed to someone else *)
-  /\ can_accept ex_start (mkMsg 7 9 0 None 2 true true 0 12 true) = false.     (* own message *)
+  /\ can_accept ex_start (mkMsg 8 9 1 None 2 true true 0 12 true NoPanic) = false      (* other session tag *)
+  /\ can_accept ex_start (mkMsg 7 10 1 None 2 true true 0 12 true NoPanic) = false     (* other protocol id *)
+  /\ can_accept ex_start (mkMsg 7 9 5 None 2 true true 0 12 true NoPanic) = false      (* unknown sender *)
+  /\ can_accept ex_start (mkMsg 7 9 1 (Some 2) 2 true false 0 12 true NoPanic) = false (* addressed to someone else *)
+  /\ can_accept ex_start (mkMsg 7 9 0 None 2 true true 0 12 true NoPanic) = false.     (* own message *)
 Proof. vm_compute. repeat split. Qed.
